@@ -25,7 +25,7 @@ def bounds(tier):
     return {
         "H08a": "one assign_outgoing step: destination in {multicast(None), P, Q, fresh}, state (flag, id) with id 1..0xFFFF symbolic, two foreign destinations with symbolic state",
         "H08b": "K<=%d send_sd calls (all sequences up to 3 (thorough 4), sequences of the maximal length over at most two destinations), destination per call from {multicast, P, Q (counters preset to symbolic (flag, id)), a fresh peer (default state)}, empty/non-empty per call; datagrams decoded by the independent reader" % k,
-        "H08c": "SimpleEventgroup notifications to 2 subscribers (IPv4, IPv6), %d rounds of 1..2 events, per-destination counters preset symbolic" % (3 if tier == "thorough" else 2),
+        "H08c": "SimpleEventgroup notifications to 2 subscribers (IPv4, IPv6), %d rounds of 1..3 events, per-destination counters preset symbolic" % (3 if tier == "thorough" else 2),
     }
 
 
@@ -41,7 +41,7 @@ def cases(tier, seed):
             if k == K or k <= (4 if tier == "thorough" else 3):
                 out.append({"h": "H08b", "dests": list(combo)})
     R = 3 if tier == "thorough" else 2
-    for combo in itertools.product((1, 2), repeat=R):
+    for combo in itertools.product((1, 2, 3), repeat=R):
         out.append({"h": "H08c", "rounds": list(combo)})
     return out
 
@@ -141,6 +141,7 @@ def h08c(E, M, case):
     svc.register_eventgroup(evg)
     evg.values[1] = b"a"
     evg.values[2] = b"bc"
+    evg.values[3] = b"def"
     eps = [
         M.header.IPv4EndpointOption(ipaddress.IPv4Address("192.0.2.7"), M.header.L4Protocols.UDP, 4000),
         M.header.IPv6EndpointOption(ipaddress.IPv6Address("2001:db8::7"), M.header.L4Protocols.UDP, 4001),
@@ -157,7 +158,7 @@ def h08c(E, M, case):
     for r, nev in enumerate(case["rounds"]):
         t += 100
         n0 = len(tr.sent)
-        events = [1, 2][:nev]
+        events = [1, 2, 3][:nev]
         loop.deliver(t, lambda ev=events: evg.notify_once(ev), may_defer=False)
         loop.settle()
         new = tr.sent[n0:]
